@@ -14,7 +14,7 @@ RULE = ("histories of kernel events (spawn/exit->zombie/reap/PID reuse/clock ste
 TRUSTED = PC.TRUSTED
 ASSUMPTIONS = PC.ASSUMPTIONS
 EXHAUSTIVE = {}
-SPEC_KINDS = ("isrun", "eq", "hasheq")
+SPEC_KINDS = ("isrun", "eq", "hasheq", "eqother")
 N = {"quick": 1100, "thorough": 14000, "search": 2500}
 
 
